@@ -98,6 +98,7 @@ class Engine:
         self.model = None  # a model known to satisfy the current pc (or None)
         self.events: list = []  # per-path event tags raised by models (known-finding predicates)
         self.notes: dict = {}
+        self.decided: dict = {}
         self.assumptions: list = []
 
     # ------------------------------------------------------------------ solver plumbing
@@ -139,12 +140,17 @@ class Engine:
             return True
         if z3.is_false(cond):
             return False
+        cid = cond.get_id()
+        hit = self.decided.get(cid)
+        if hit is not None:  # same condition already decided on this path: no fork, no query
+            return hit[0]
         if self.pos < len(self.prefix):
             d = self.prefix[self.pos]
             self.decisions.append(d)
             self.pos += 1
             self.solver.add(cond if d else z3.Not(cond))
             self.model = None
+            self.decided[cid] = (d, cond)
             return d
         # new decision
         if self.wall_budget_s is not None and time.time() - self._t0 > self.wall_budget_s:
@@ -184,6 +190,7 @@ class Engine:
         self.decisions.append(d)
         self.pos += 1
         s.add(cond if d else z3.Not(cond))
+        self.decided[cid] = (d, cond)
         return d
 
     # ------------------------------------------------------------------ exploration
@@ -194,6 +201,7 @@ class Engine:
         self.events = []
         self.notes = {}
         self.model = None
+        self.decided = {}
         self.solver = z3.Solver()
         self.solver.set("timeout", self.query_timeout_ms)
         for a in self.assumptions:
